@@ -1,4 +1,5 @@
 import N2k.Model.Bus
+import N2k.Model.ClaimRx
 import Driver.Util
 -- engine: claim
 /-! Engine `claim` (C03): executes `N2k.Bus.step` (and through it `N2k.Claim.parse`, `handleClaim`,
@@ -69,7 +70,7 @@ def actOut (b : Bus) (i : Nat) (r : Kind × List Frame) (inb : List Frame) : Bus
   let b' := pack (act b i r inb)
   (b', s!"{framesStr r.2} | {addrsOf r.1} | {inboxLens b'}")
 
-def step (st : Option Bus) (w : List String) : Option Bus × String :=
+def stepBus (st : Option Bus) (w : List String) : Option Bus × String :=
   match w with
   | "reset" :: fl :: mode :: now :: devs =>
     match nat? mode, nat? now, devs.mapM parsePair with
@@ -99,17 +100,6 @@ def step (st : Option Bus) (w : List String) : Option Bus × String :=
       | none => (st, "bad-op")
     -- ---------------------------------------------------------------- level 1 (node 0, no inbox)
     | ["poll"] => let r := actOut b 0 (kindPoll k0) []; (some r.1, r.2)
-    | ["claim", src, nm] => match nat? src, hexNat? nm with
-      | some src, some nm =>
-        let r := actOut b 0 (kindRx b.next k0 (frameOfClaim (nm, src))) []; (some r.1, r.2)
-      | _, _ => (st, "bad-op")
-    | ["rxc", id, len, hx] => match hexNat? id, nat? len, hexBytes? hx with
-      | some id, some len, some data =>
-        let r := actOut b 0 (kindRx b.next k0 ⟨id, len, data⟩) []; (some r.1, r.2)
-      | _, _, _ => (st, "bad-op")
-    | ["cmdaddr", nm, a, dst] => match hexNat? nm, nat? a, nat? dst with
-      | some nm, some a, some dst => let r := actOut b 0 (kindCmd k0 dst nm a) []; (some r.1, r.2)
-      | _, _, _ => (st, "bad-op")
     | ["restart"] => let r := actOut b 0 (kindRestart k0) []; (some r.1, r.2)
     -- ---------------------------------------------------------------- level 2
     | ["d", i] => match nat? i with
@@ -151,6 +141,61 @@ def step (st : Option Bus) (w : List String) : Option Bus × String :=
     | ["q"] =>
       (st, " ".intercalate ((List.range b.n).map fun i => s!"{addrsOf (b.node i).kind}/{(b.node i).inbox.length}"))
     | _ => (st, "bad-op")
+
+/-- engine state: the bus, and the receive slots of node 0 (level 1) -/
+structure ES where
+  b : Bus
+  rx : N2k.Rx.St
+
+def packRx (r : N2k.Rx.St) : N2k.Rx.St :=
+  let arr := ((List.range r.N).map r.slot).toArray
+  { r with slot := fun j => arr.getD j N2k.Rx.emptySlot }
+
+/-- level 1: node 0 became `n'` and sent `out` -/
+def lib0Out (es : ES) (n' : N2k.ClaimRx.Node) (out : List Frame) (pre : String) : Option ES × String :=
+  let b' := pack (setNode es.b 0 ⟨.lib n'.inst, []⟩)
+  (some ⟨b', packRx n'.rx⟩, s!"{pre}{framesStr out} | {addrsOf (.lib n'.inst)} | {inboxLens b'}")
+
+def step (st0 : Option ES) (w : List String) : Option ES × String :=
+  let lift (r : Option Bus × String) : Option ES × String :=
+    match r.1, st0 with
+    | some b, some es => (some { es with b := b }, r.2)
+    | some b, none => (some ⟨b, N2k.Rx.init 5⟩, r.2)
+    | none, _ => (none, r.2)
+  -- level 1 ops that go through the receive slots / the application send
+  match st0, w with
+  | some es, ["claim", src, nm] =>
+    match (es.b.node 0).kind, nat? src, hexNat? nm with
+    | .lib x, some src, some nm =>
+      let r := N2k.ClaimRx.stepFrame ⟨x, es.rx⟩ (frameOfClaim (nm, src)); lib0Out es r.1 r.2 ""
+    | _, _, _ => (st0, "bad-op")
+  | some es, ["rxc", id, len, hx] =>
+    match (es.b.node 0).kind, hexNat? id, nat? len, hexBytes? hx with
+    | .lib x, some id, some len, some data =>
+      let r := N2k.ClaimRx.stepFrame ⟨x, es.rx⟩ ⟨id, len, data⟩; lib0Out es r.1 r.2 ""
+    | _, _, _, _ => (st0, "bad-op")
+  | some es, ["cmdaddr", nm, a, dst] =>
+    match (es.b.node 0).kind, hexNat? nm, nat? a, nat? dst with
+    | .lib x, some nm, some a, some dst =>
+      let r := N2k.ClaimRx.stepCmd ⟨x, es.rx⟩ dst nm a; lib0Out es r.1 r.2 ""
+    | _, _, _, _ => (st0, "bad-op")
+  | some es, ["send", d, prio, pgn, src, dst, len, hx] =>
+    match (es.b.node 0).kind, nat? prio, nat? pgn, nat? src, nat? dst, nat? len, hexBytes? hx with
+    | .lib x, some prio, some pgn, some src, some dst, some len, some data =>
+      let dev : Option Nat := if d.startsWith "-" then none else nat? d
+      let r := N2k.ClaimRx.stepSend ⟨x, es.rx⟩ { prio := prio, pgn := pgn, src := src, dst := dst, len := len, data := data } dev
+      lib0Out es r.1 r.2.2 s!"{boolStr r.2.1} "
+    | _, _, _, _, _, _, _ => (st0, "bad-op")
+  | some es, ["slots"] =>
+    (st0, " ".intercalate ((List.range es.rx.N).map fun i =>
+      let s := es.rx.slot i
+      if s.free then "F" else s!"{s.pgn}.{s.src}.{s.msgTime}{if s.tp then ".T" else ""}"))
+  | _, "reset" :: _ => match lift (stepBus none w) with
+    | (some es, o) => (some { es with rx := N2k.Rx.init 5 }, o)
+    | r => (r.1.orElse (fun _ => st0), r.2)
+  | _, _ => match lift (stepBus (st0.map (·.b)) w) with
+    | (none, o) => (st0, o)
+    | r => r
 
 def main : IO Unit := loop step none
 
